@@ -29,6 +29,7 @@ func families(tier string) []fw.Family {
 			familySingle(fmt.Sprintf("PDF, ToUnicode ranges and W ranges: %d strings over {a,b,c}, digit runs and all pairs of consecutive code points (ASCII, Latin-1 letters) x 3 fonts x NewTextLine x SubsetFonts on/off", len(rangeStrings())), rangeStrings(), []int{kindLine}, both),
 			familyPairs("PDF, two texts", pairStrings, both),
 			familyReuse("PDF, one font object for two documents in a row", pairStrings),
+			familyWidthRuns(0),
 		}
 	}
 	// quick: a document with a fully embedded font costs 40 ms and more, one with a subsetted font
@@ -46,6 +47,7 @@ func families(tier string) []fw.Family {
 		familySingle(fmt.Sprintf("PDF, ToUnicode ranges and W ranges: %d strings over {a,b,c}, digit runs and all pairs of consecutive code points (ASCII, Latin-1 letters) x 3 fonts x NewTextLine x SubsetFonts on/off", len(rangeStrings())), rangeStrings(), []int{kindLine}, both),
 		familyPairs("PDF, two texts", pairStrings[:3], both),
 		familyReuse("PDF, one font object for two documents in a row", pairStrings[:3]),
+		familyWidthRuns(0),
 	}
 }
 
@@ -79,7 +81,7 @@ func Prop() *fw.Property {
 		Level: "model_checking",
 		Rule: "states = PDF documents, transitions = text draws (API calls that lay out or draw text), validated = documents whose every shown character code was followed through the written font dictionary into the embedded font program and compared with the layout. " +
 			"Enumerated completely: all strings of at most 3 (quick) / 4 (thorough) tokens over {A, V, f, i, é, space, x, -} x {DejaVuSerif.ttf (TrueType), EBGaramond12-Regular.otf (CFF), Dynalight-Regular.otf (CFF)} x 8 layouts {NewTextLine Left, NewTextBox unbounded, NewTextBox 2.2 em wide justified (several lines, stretched glue), NewTextLine Right, RichText VerticalRL natural (rotated), RichText VerticalRL upright, NewTextLine with face offsets at 8 pt, NewTextLine under a rotating and scaling view} x {SubsetFonts on, off}; " +
-			"pairs of texts (5 x 5 strings, 3 x 3 fonts, horizontal/vertical upright each, same page or a new page between them); one font object used for two documents in a row; all call orders of at most 5 Get calls over 4 glyph ids on the FontSubsetter; ToPath/TextWidth/NewTextLine and Text.RenderAsPath for every string, font and face/layout. " +
+			"pairs of texts (5 x 5 strings, 3 x 3 fonts, horizontal/vertical upright each, same page or a new page between them); one font object used for two documents in a row; all call orders of at most 5 Get calls over 4 glyph ids on the FontSubsetter; ToPath/TextWidth/NewTextLine and Text.RenderAsPath for every string, font and face/layout; strings derived from each font's own tables for the compact notations of the font dictionary (five characters of every advance class followed by one character of every distinct advance incl. the default width, every run of five consecutive glyph ids of one advance alone and followed by the next glyph, all printable ASCII/Latin-1 characters in order and interleaved: ToUnicode ranges over byte wraps, more than 100 ToUnicode entries). " +
 			"distinct_nontrivial counts globally distinct documents (family \"documents\", keyed by decoded content streams, font dictionaries, ToUnicode maps and glyph outlines) plus the cases of the non-PDF families.",
 		Assumptions: []string{
 			"bound: strings of at most 3/4 tokens over 8 tokens, one face size per layout, Latin script only (no right-to-left runs, no vertical scripts, no embedded objects, no faux bold/italic, no decorations), the three bundled fonts named above; Compress is always on",
